@@ -236,6 +236,16 @@ class RuleTable:
                 r = self.repo.resolve_expr(m, d)
                 if r is not None and r.kind == "repo" and r.okind == "assign":
                     d, dm = r.node, r.mod
+            if isinstance(d, ast.Call) and not d.keywords and not any(isinstance(a_, ast.Starred) for a_ in d.args):
+                # factory(a, b).items(): a module-level function whose only statement of substance is `return {..}`
+                dv = subst(d, env)
+                fr_ = self.repo.resolve_expr(m, dv.func) if isinstance(dv, ast.Call) and isinstance(dv.func, (ast.Name, ast.Attribute)) else None
+                if fr_ is not None and fr_.kind == "repo" and fr_.okind == "def" and fr_.mod is m and isinstance(fr_.node, ast.FunctionDef) and not fr_.node.decorator_list:
+                    fa = fr_.node.args
+                    fparams = [p_.arg for p_ in fa.posonlyargs + fa.args]
+                    body_ = [s_ for s_ in fr_.node.body if not (isinstance(s_, ast.Expr) and isinstance(s_.value, ast.Constant))]
+                    if not fa.vararg and not fa.kwarg and not fa.kwonlyargs and len(dv.args) == len(fparams) and len(body_) == 1 and isinstance(body_[0], ast.Return) and isinstance(body_[0].value, ast.Dict):
+                        d = subst(body_[0].value, dict(zip(fparams, dv.args)))
             if isinstance(d, ast.DictComp) and len(d.generators) == 1 and not d.generators[0].ifs and dm is m:
                 # {key(x): value(x) for x in <literal>}: the display with one entry per element
                 g_ = d.generators[0]
@@ -474,6 +484,11 @@ class RuleTable:
             if r is not None and r.kind == "repo" and r.okind == "assign" and r.mod is m and isinstance(r.node, (ast.Tuple, ast.List)) and not any(isinstance(e, ast.Starred) for e in r.node.elts):
                 return list(r.node.elts)
             return None
+        if isinstance(v, ast.Call) and len(v.args) == 1 and not v.keywords and isinstance(v.args[0], (ast.GeneratorExp, ast.ListComp, ast.Tuple, ast.List)):
+            # *tuple(<comprehension>) / *list(...): the elements of the inner sequence
+            fr0 = self._resolve(m, v.func, env)
+            if fr0 is not None and fr0.qual in ("builtins.tuple", "builtins.list"):
+                return self._expand_starred(m, v.args[0], env)
         if isinstance(v, ast.Call) and not any(isinstance(a, ast.Starred) for a in v.args):
             # *factory(...): a module-level function every return of which is a tuple display of the same length n
             # contributes factory(...)[0] .. factory(...)[n-1]
